@@ -70,6 +70,12 @@ CHECKS = {
    text="For every error of the cause chain that names a template the line must lie inside that template's source and a reported range must be a valid slice (bounds, char boundaries) on the reported line; inserting N lines above / M characters in front must shift line/range by exactly that and change nothing else; all formatting forms must complete. A division by zero planted in 29 expression positions and 12 failing statements that end their line (x surroundings x offsets, enumerated) must be reported on its own line.",
    note="Vertical shifts are only asserted while the padded template stays within 65 535 lines (the property's domain).",
    design="3/C14"),
+ "C15": dict(
+   technique="stateful (model-based) property testing: generated operation histories interpreted against the real Environment and an explicit contents model, compared after every step with a freshly built environment; loader-call log as history invariant; concurrent renders sampled",
+   level="exploration",
+   text="Histories over add/replace/remove templates in both stores (incl. sources that fail to compile), clear_templates, set_loader over a mutable shared store and edits of it, add/remove filter/test/global/function, clone, renders and compile_expression are applied step by step; after every step every template name must render exactly as in a fresh environment built from the model's contents, renders must be repeatable, the loader must not be asked for stored names, clones must keep their contents, and the final environment renders identically from up to 8 threads.",
+   note="Settings that only affect later-loaded templates are outside the histories. Thread interleavings are sampled.",
+   design="3/C15"),
  "C16": dict(
    technique="property-based testing: round-trip oracle over generated serde shape trees (every variant/struct/map-key shape), identity oracle for embedded Values, differential of tojson / JSON auto-escape output against an independent strict RFC 8259 parser",
    level="exploration",
